@@ -2070,6 +2070,138 @@ VF_PART(binary_medium)
     if (b.square() && (b.r == a.r || b.r == a.c)) normOps(S, a, b, (id % n) == 128);
   });
 }
+// =====================================================================================================
+// aliasing axis: output object == input object
+// =====================================================================================================
+// Every operation taking an input and an output vector / matrix is called with the SAME object on both sides. Oracle = the
+// non-aliased (reference) result, identical across storages. An aliased call that NO storage answers correctly is counted as
+// 'not supported by any storage' (not judged); as soon as one storage gives the defined result the others must give it too.
+struct AliasRes { bool ran = false, right = false; std::string got; };
+static void aliasOps(Sink& S, const Ref& A)
+{
+  if (!A.square()) return;
+  const int n = A.r;
+  const std::string in = " A=" + A.str();
+  const std::vector<LD> v0 = mvec(n, 1);
+  Ref inv; bool nonsing = rinv(A, inv) && rnorm1(A) * rnorm1(inv) < 1e6;
+  Ref L; LD ld; bool spd = nonsing && A.symmetric() && rchol(A, L, ld);
+  const double tol = 1e-9;
+  LD scale = 1; for (auto x : A.a) scale = std::max<LD>(scale, fabsl(x)); if (nonsing) scale = std::max(scale, rnorm1(inv));
+  scale *= 8;
+  std::map<std::string, std::vector<AliasRes>> res;
+  std::map<std::string, std::string> expd;
+  auto recV = [&](const std::string& op, int s, const VectorDouble& got, const std::vector<LD>& e) {
+    auto& r = res[op]; if (r.empty()) r.resize(NST + 3);
+    std::string why; r[s].ran = true; r[s].right = cmpVecTo(got, e, tol, scale, why); r[s].got = vstr(got);
+    std::vector<double> ed(e.begin(), e.end()); expd[op] = vstr(ed); S.eval();
+  };
+  auto recM = [&](const std::string& op, int s, const AMatrix* got, const Ref& e) {
+    auto& r = res[op]; if (r.empty()) r.resize(NST + 3);
+    std::string why; r[s].ran = true; r[s].right = cmpMatTo(got, e, tol, scale, why); r[s].got = why; expd[op] = e.str(); S.eval();
+  };
+  for (int s = 0; s < NST; s++)
+  {
+    if (!canHold(s, A)) continue;
+    const std::string cl = stClass(s);
+    auto step = [&](const std::string& op, std::function<void(AMatrix*)> f) { S.run("aliasing:" + op + ":" + cl, [&] { AMatrix* m = build(s, A); f(m); delete m; }); };
+    if (nonsing && (!isSparseSt(s) || spd))
+      step("solve(v,v)", [&](AMatrix* m) { VectorDouble v = toVD(v0); m->solve(v, v); recV("solve(v,v)", s, v, rmv(inv, v0)); });
+    for (int t = 0; t < 2; t++)
+    {
+      const std::string ts = t ? ",T" : "";
+      Ref M = rT(t, A);
+      step("prodMatVecInPlace(v,v" + ts + ")", [&](AMatrix* m) { VectorDouble v = toVD(v0); m->prodMatVecInPlace(v, v, t); recV("prodMatVecInPlace(v,v" + ts + ")", s, v, rmv(M, v0)); });
+      step("prodMatVecInPlace-span(v,v" + ts + ")", [&](AMatrix* m) { VectorDouble v = toVD(v0); constvect xs(v.data(), v.size()); vect ys(v.data(), v.size()); m->prodMatVecInPlace(xs, ys, t); recV("prodMatVecInPlace-span(v,v" + ts + ")", s, v, rmv(M, v0)); });
+      step("prodMatVecInPlacePtr(p,p" + ts + ")", [&](AMatrix* m) { VectorDouble v = toVD(v0); m->prodMatVecInPlacePtr(v.data(), v.data(), t); recV("prodMatVecInPlacePtr(p,p" + ts + ")", s, v, rmv(M, v0)); });
+      step("addProdMatVecInPlace(v,v" + ts + ")", [&](AMatrix* m) { VectorDouble v = toVD(v0); constvect xs(v.data(), v.size()); vect ys(v.data(), v.size()); m->addProdMatVecInPlace(xs, ys, t); std::vector<LD> e = rmv(M, v0); for (int i = 0; i < n; i++) e[i] += v0[i]; recV("addProdMatVecInPlace(v,v" + ts + ")", s, v, e); });
+      step("prodVecMatInPlace(v,v" + ts + ")", [&](AMatrix* m) { VectorDouble v = toVD(v0); m->prodVecMatInPlace(v, v, t); recV("prodVecMatInPlace(v,v" + ts + ")", s, v, rmv(M.T(), v0)); });
+    }
+    step("addMatInPlace(self)", [&](AMatrix* m) {
+      if (isSparseSt(s)) { MatrixSparse* q = dynamic_cast<MatrixSparse*>(m); q->addMatInPlace(*q, 2., -0.5); } else { AMatrixDense* q = dynamic_cast<AMatrixDense*>(m); q->addMatInPlace(*q, 2., -0.5); }
+      recM("addMatInPlace(self)", s, m, rlin(1.5L, A, 0, A));
+    });
+    step("AMatrix::addMatInPlace(self)", [&](AMatrix* m) { m->AMatrix::addMatInPlace(*m, 2., -0.5); recM("AMatrix::addMatInPlace(self)", s, m, rlin(1.5L, A, 0, A)); });
+    step("linearCombination(self,self)", [&](AMatrix* m) { m->linearCombination(2., m, -0.5, m); recM("linearCombination(self,self)", s, m, rlin(1.5L, A, 0, A)); });
+    step("prodMatMatInPlace(this,this)", [&](AMatrix* m) { m->prodMatMatInPlace(m, m, false, false); recM("prodMatMatInPlace(this,this)", s, m, rmul(A, A)); });
+    if (s != SYM)
+    {
+      Ref Y = hMenu(n, n, 6, false); const int so = isSparseSt(s) ? s : RECT;
+      step("prodMatMatInPlace(this,y)", [&](AMatrix* m) { AMatrix* y = build(so, Y); m->prodMatMatInPlace(m, y, false, false); recM("prodMatMatInPlace(this,y)", s, m, rmul(A, Y)); delete y; });
+      step("prodMatMatInPlace(x,this)", [&](AMatrix* m) { AMatrix* y = build(so, Y); m->prodMatMatInPlace(y, m, false, false); recM("prodMatMatInPlace(x,this)", s, m, rmul(Y, A)); delete y; });
+      step("prodMatMatInPlace(this,this,T,N)", [&](AMatrix* m) { m->prodMatMatInPlace(m, m, true, false); recM("prodMatMatInPlace(this,this,T,N)", s, m, rmul(A.T(), A)); });
+    }
+  }
+  if (spd)
+    for (int kind = 0; kind < 3; kind++)
+    {
+      static const char* kn[3] = {"chol-dense", "chol-sparse-eigen", "chol-sparse-cs"};
+      const int st = kind == 0 ? SYM : kind == 1 ? SPE : SPC;
+      S.run(std::string("aliasing:cholesky-solve(v,v):") + kn[kind], [&] {
+        AMatrix* m = build(st, A);
+        ACholesky* ch = kind == 0 ? (ACholesky*)new CholeskyDense(dynamic_cast<MatrixSquareSymmetric*>(m)) : (ACholesky*)new CholeskySparse(dynamic_cast<MatrixSparse*>(m));
+        VectorDouble v = toVD(v0); constvect xs(v.data(), v.size()); vect ys(v.data(), v.size());
+        ch->solve(xs, ys);
+        auto& r = res["cholesky-solve(v,v)"]; if (r.empty()) r.resize(NST + 3);
+        std::string why; r[NST + kind].ran = true; r[NST + kind].right = cmpVecTo(v, rmv(inv, v0), tol, scale, why); r[NST + kind].got = vstr(v); S.eval();
+        std::vector<LD> e = rmv(inv, v0); std::vector<double> ed(e.begin(), e.end()); expd["cholesky-solve(v,v)"] = vstr(ed);
+        delete ch; delete m;
+      });
+    }
+  // verdicts
+  static const char* clName[NST + 3] = {"dense", "dense", "dense", "sparse-eigen", "sparse-cs", "chol-dense", "chol-sparse-eigen", "chol-sparse-cs"};
+  static const char* stN[NST + 3] = {"rect", "sqgen", "sym", "sparse-eigen", "sparse-cs", "chol-dense", "chol-sparse-eigen", "chol-sparse-cs"};
+  for (auto& kv : res)
+  {
+    bool any = false; std::string who;
+    for (int s = 0; s < NST + 3; s++) if (kv.second[s].ran && kv.second[s].right) { any = true; who += std::string(who.empty() ? "" : ",") + stN[s]; }
+    // calls that every storage of the reference tree answers with the non-aliased result are judged unconditionally
+    const bool aliasSafe = kv.first == "solve(v,v)" || kv.first == "addMatInPlace(self)" || kv.first == "AMatrix::addMatInPlace(self)" || kv.first == "linearCombination(self,self)";
+    if (!any && !aliasSafe) { S.outcome("aliasing:not-supported-by-any-storage(not judged):" + kv.first); continue; }
+    if (who.empty()) who = "no storage";
+    for (int s = 0; s < NST + 3; s++)
+    {
+      if (!kv.second[s].ran) continue;
+      if (kv.second[s].right) { S.outcome("aliasing:ok:" + kv.first + ":" + clName[s]); continue; }
+      std::string fam = kv.first;
+      if (fam.rfind("prodMatVecInPlace", 0) == 0 || fam.rfind("prodVecMatInPlace", 0) == 0 || fam.rfind("addProdMatVecInPlace", 0) == 0) fam = "matvec-inplace(v,v)";
+      else if (fam.rfind("prodMatMatInPlace", 0) == 0) fam = "prodMatMatInPlace(this-as-operand)";
+      S.badKey("aliasing:" + fam + ":" + clName[s], std::string("[") + stN[s] + "] " + kv.first + " with the SAME object as input and output gives " + kv.second[s].got + " ; the non-aliased result " + expd[kv.first] + " is returned by " + who + in);
+    }
+  }
+  S.nontrivial(Hash().s("alias").u(A.hash()).h);
+}
+// numeric vectors with themselves as second operand
+static void aliasVec(Sink& S, const std::vector<double>& v)
+{
+  const std::string in = " v=" + vs(v);
+  const int n = (int)v.size();
+  std::vector<LD> twice, sq, zero(n, 0), lc; LD ip = 0;
+  for (double x : v) { twice.push_back(2 * (LD)x); sq.push_back((LD)x * x); ip += (LD)x * x; lc.push_back(1.5L * x); }
+  S.run("aliasing:vector:self-operand", [&] {
+    { VectorDouble x = VD(v); x.add(x); expectVec(S, x, twice, "VectorDouble::add(self)" + in); }
+    { VectorDouble x = VD(v); x.subtract(x); expectVec(S, x, zero, "VectorDouble::subtract(self)" + in); }
+    { VectorDouble x = VD(v); x.multiply(x); expectVec(S, x, sq, "VectorDouble::multiply(self)" + in); }
+    { VectorDouble x = VD(v); chk(S, x.innerProduct(x), ip, "VectorDouble::innerProduct(self)" + in); }
+    { VectorDouble x = VD(v); VH::addInPlace(x, x); expectVec(S, x, twice, "VH::addInPlace(x,x)" + in); }
+    { VectorDouble x = VD(v); VH::multiplyInPlace(x, x); expectVec(S, x, sq, "VH::multiplyInPlace(x,x)" + in); }
+    { VectorDouble x = VD(v); VH::subtractInPlace(x, x); expectVec(S, x, zero, "VH::subtractInPlace(x,x)" + in); }
+    if (n > 0) { VectorDouble x = VD(v); VH::linearCombinationInPlace(2., x, -0.5, x, x); expectVec(S, x, lc, "VH::linearCombinationInPlace(2,x,-0.5,x,x)" + in); }
+    { VectorDouble x = VD(v); VH::addInPlace(x, x, x); expectVec(S, x, twice, "VH::addInPlace(x,x,x)" + in); }
+  });
+  S.nontrivial(Hash().s("aliasvec").vd(v).h);
+}
+
+VF_PART(aliasing)
+{
+  std::vector<Ref> all;
+  for (auto& a : allSmall(4)) if (a.square()) all.push_back(a);
+  for (auto& a : structured(C.thorough())) if (a.square()) all.push_back(a);
+  if (C.thorough()) for (int id = 0; id < 512; id++) { Ref a(3, 3); for (int k = 0; k < 9; k++) a.a[k] = (id >> k) & 1; all.push_back(a); }
+  static const double alphaA[4] = {-1, 0, 2, 0.5};
+  std::vector<std::vector<double>> vecs;
+  for (int n = 0; n <= 3; n++) { uint64_t tot = 1; for (int k = 0; k < n; k++) tot *= 4; for (uint64_t id = 0; id < tot; id++) vecs.push_back(decodeVec(id, n, alphaA, 4)); }
+  runCases(C, all.size() + vecs.size(), [&](Sink& S, uint64_t id) { if (id < all.size()) aliasOps(S, all[id]); else aliasVec(S, vecs[id - all.size()]); });
+}
 // E2: histories of 2..3 (thorough 4 on the symmetric storage) mutators on ONE object, all derived requests replayed
 VF_PART(history_matrix)
 {
